@@ -7,15 +7,17 @@ import Gleece.Driver.Common
 import Gleece.Driver.Paths
 import Gleece.Driver.Graph
 import Gleece.Driver.Annot
+import Gleece.Driver.IR
 open Lean Gleece.Driver
 
 def handlers : List (String × Handler) := [
   ("paths", pathsHandler),
   ("graph", graphHandler),
-  ("annot", annotHandler)
+  ("annot", annotHandler),
+  ("ir", irHandler)
 ]
 
-def processLine (line : String) (implLine : Option String) : Json :=
+def processLine (prop : String) (line : String) (implLine : Option String) : Json :=
   match Json.parse line with
   | .error e => Json.mkObj [("id", (-1 : Int)), ("error", s!"bad op: {e}")]
   | .ok op =>
@@ -31,19 +33,19 @@ def processLine (line : String) (implLine : Option String) : Json :=
     match handlers.lookup mode with
     | none => Json.mkObj [("id", id), ("error", s!"unknown mode {mode}")]
     | some h =>
-      match h input implOut with
+      match h prop input implOut with
       | .ok v => v.toJson id
       | .error e => Json.mkObj [("id", id), ("error", e)]
 
-partial def loop (inp : IO.FS.Stream) (impl : Option IO.FS.Handle) (out : IO.FS.Stream) : IO Unit := do
+partial def loop (prop : String) (inp : IO.FS.Stream) (impl : Option IO.FS.Handle) (out : IO.FS.Stream) : IO Unit := do
   let line ← inp.getLine
   if line.isEmpty then return ()
   let implLine ← match impl with
     | some h => do let l ← h.getLine; pure (if l.isEmpty then none else some l)
     | none => pure none
-  if line.trimAscii.isEmpty then loop inp impl out else
-  out.putStrLn (processLine line implLine).compress
-  loop inp impl out
+  if line.trimAscii.isEmpty then loop prop inp impl out else
+  out.putStrLn (processLine prop line implLine).compress
+  loop prop inp impl out
 
 def main (args : List String) : IO Unit := do
   let inp ← IO.getStdin
@@ -51,5 +53,8 @@ def main (args : List String) : IO Unit := do
   let impl ← match args with
     | p :: _ => some <$> IO.FS.Handle.mk p .read
     | [] => pure none
-  loop inp impl out
+  let prop := match args with
+    | _ :: p :: _ => p
+    | _ => ""
+  loop prop inp impl out
   out.flush
